@@ -318,6 +318,24 @@ PROPS = {
         note="the comma-decimal locale is synthesized offline from C.utf8 by bin/setup (decimal_point patched); if it cannot be loaded the run says so and is marked not exhaustive",
         assumptions=COMMON_ASSUMPTIONS + ["glibc locale file layout (decimal_point at LC_NUMERIC offsets 0x20/0x24) as found in this image"],
     ),
+    "C18": dict(
+        level="model_checking",
+        runs=[dict(harness="c18", variant="thr", shards=14, tag="explore", build=dict(extra_sources=["mc/sched.c"], extra_cflags=["-DC18_OWN_SCHED"])),
+              dict(harness="c18", variant="tsan", shards=14, tag="tsan-free-run")],
+        deadline=dict(quick=400, thorough=3000),
+        rule="ENABLE_THREADING build; 14 harness configurations: (1) threads borrow main's reference (get;put / get;get;put;put), (2) one reference handed to each thread, main releases its own "
+             "without joining, (3) the same on an object owning a child with its own callback, (4) N threads racing on first use of the key hash (seed source returns -1 once, then distinct values), "
+             "(5) threads on disjoint trees; every interleaving of the 2-3 real threads at shared-memory-access granularity with at most p preemptions (stateless DFS with prefix replay, one process "
+             "per execution); oracle per schedule: destroyed exactly once, 'freed' reported exactly once, no access inside a freed block, equal hashes in all threads at all times, plus a "
+             "vector-clock happens-before race monitor; then the same bodies free-running under the real ThreadSanitizer runtime; non-trivial = distinct schedule with >= 1 preemption",
+        bound=dict(quick="2 threads: 2 preemptions; 3 threads: 1 preemption; 60 free runs per configuration", thorough="2 threads: 3 preemptions; 3 threads: 2 preemptions; 300 free runs per configuration"),
+        states_stat="schedules", transitions_stat="scheduling_points",
+        technique="stateless model checking of the real threaded code: preemption-bounded exhaustive schedule exploration over tsan-pass-instrumented accesses with own scheduler and HB race monitor; real TSan free run as cross-check",
+        claim="every schedule within the preemption bound was executed on the real objects: no lost reference-count update, exactly one destruction after the last release, a single published hash "
+              "seed, no data race by the C11 happens-before definition; the free-running ThreadSanitizer pass reports nothing",
+        note="sequentially consistent interleavings only (the __sync builtins are full barriers); library built with -DNDEBUG like the shipped configuration, so assert() reads of the counter are not part of the build",
+        assumptions=COMMON_ASSUMPTIONS + ["x86-64 memory model not explored beyond sequential consistency"],
+    ),
 }
 
 NOT_APPLICABLE = {}
